@@ -48,7 +48,7 @@ class BaseTranslateFilter:
     """
 
     name = "base"
-    re_vars = re.compile(r"(?<!%)%\((\w+)\)s")
+    re_vars = re.compile(r"(?<!%)(?:%%)*%\((\w+)\)s")
     with_context = True
 
     def __init__(
